@@ -49,6 +49,14 @@ func main() {
 			n, _ = strconv.Atoi(os.Args[2])
 		}
 		os.Exit(checks.RacePass(n))
+	case "c06probe":
+		// one deep-nesting input under one driver in a process of its own (C06)
+		if len(os.Args) < 5 {
+			usage()
+		}
+		d, _ := strconv.Atoi(os.Args[2])
+		n, _ := strconv.Atoi(os.Args[4])
+		os.Exit(checks.C06Probe(d, os.Args[3], n))
 	case "selfcheck":
 		os.Exit(mc.RunSelfchecks())
 	case "list":
